@@ -4,22 +4,26 @@ from concurrent.futures import ThreadPoolExecutor
 VIS="api_analyzer/_ast_visitor.py"; GEN="stubs_generator/_stub_string_generator.py"; GS="stubs_generator/_generate_stubs.py"; HELP="stubs_generator/_helper.py"; GA="api_analyzer/_get_api.py"; DP="docstring_parsing/_docstring_parser.py"; MH="api_analyzer/_mypy_helpers.py"
 TY="api_analyzer/_types.py"
 REWRITES = [
- ("receiver skip via enumerate index", GEN, '        first_loop_skipped = False\n        for parameter in parameters:\n            # Skip self parameter for functions\n            if is_instance_method and not first_loop_skipped:\n                first_loop_skipped = True\n                continue\n',
-  '        for parameter_index, parameter in enumerate(parameters):\n            # Skip self parameter for functions\n            if is_instance_method and parameter_index == 0:\n                continue\n'),
- ("bool default via conditional on identity", GEN, 'default_value = "true" if param_default_value else "false"', 'default_value = "false" if not param_default_value else "true"'),
- ("variadic test as two equalities", GEN, 'if assigned_by in {ParameterAssignment.POSITIONAL_VARARG, ParameterAssignment.NAMED_VARARG}:\n                self._current_todo_msgs.add("variadic")', 'if assigned_by == ParameterAssignment.POSITIONAL_VARARG or assigned_by == ParameterAssignment.NAMED_VARARG:\n                self._current_todo_msgs.add("variadic")'),
- ("name annotation via conditional expression", GEN, '            name_annotation = ""\n            if camel_case_name != name:\n                # Memorize the changed name for the @PythonName() annotation\n                name_annotation = f"{_create_name_annotation(name)} "\n\n            # Check if it\'s a Safe-DS keyword and escape it\n            camel_case_name = _replace_if_safeds_keyword(camel_case_name)\n\n            # Create string and append to the list',
-  '            name_annotation = f"{_create_name_annotation(name)} " if camel_case_name != name else ""\n\n            # Check if it\'s a Safe-DS keyword and escape it\n            camel_case_name = _replace_if_safeds_keyword(camel_case_name)\n\n            # Create string and append to the list'),
- ("parameter text joined from a list", GEN, '            parameters_data.append(\n                f"{name_annotation}{camel_case_name}{type_string}{param_value}",\n            )', '            parameters_data.append("".join([name_annotation, camel_case_name, type_string, param_value]))'),
- ("empty parameter list test first", GEN, '        inner_indentations = indentations + INDENTATION\n        if parameters_data:\n            inner_param_data = f",\\n{inner_indentations}".join(parameters_data)\n            return f"\\n{inner_indentations}{inner_param_data}\\n{indentations}"\n        return ""',
-  '        if not parameters_data:\n            return ""\n        inner_indentations = indentations + INDENTATION\n        inner_param_data = f",\\n{inner_indentations}".join(parameters_data)\n        return f"\\n{inner_indentations}{inner_param_data}\\n{indentations}"'),
- ("cached docstring miss path reordered", DP, None, None),
- ("stack pop and check merged", VIS, '        function = self.__declaration_stack.pop()\n        if not isinstance(function, Function):  # pragma: no cover\n            raise AssertionError("Imbalanced push/pop on stack")  # noqa: TRY004\n\n        if len(self.__declaration_stack) > 0:\n            parent = self.__declaration_stack[-1]\n\n            # Add the data of the function',
-  '        function = self.__declaration_stack.pop()\n        if not isinstance(function, Function):  # pragma: no cover\n            raise AssertionError("Imbalanced push/pop on stack")  # noqa: TRY004\n\n        if self.__declaration_stack:\n            parent = self.__declaration_stack[-1]\n\n            # Add the data of the function'),
- ("results kept test inverted", GEN, None, None),
- ("shortest reexport key as lambda with default", HELP, None, None),
- ("types sorted via sorted()", GEN, '            types = list({self._create_type_string(type_) for type_ in type_data["types"]})\n            types.sort()', '            types = sorted({self._create_type_string(type_) for type_ in type_data["types"]})'),
- ("api add_class via update", "api_analyzer/_api.py", '        self.classes[class_.id] = class_', '        self.classes.update({class_.id: class_})'),
+ ("type var sort via sorted()", VIS, '                type_var_types = list(self.type_var_types)\n                # Sort for the snapshot tests\n                type_var_types.sort(key=lambda x: x.name)', '                # Sort for the snapshot tests\n                type_var_types = sorted(self.type_var_types, key=lambda x: x.name)'),
+ ("warning guard with nested if", VIS, '            if (\n                code_type is not None\n                and doc_type is not None\n                and code_type != doc_type\n                and self.type_source_warning == TypeSourceWarning.WARN\n            ):\n                msg = f"Different type hint and docstring types for \'{function_id}\'."\n                logging.warning(msg)',
+  '            if code_type is not None and doc_type is not None and code_type != doc_type:\n                if self.type_source_warning == TypeSourceWarning.WARN:\n                    msg = f"Different type hint and docstring types for \'{function_id}\'."\n                    logging.warning(msg)'),
+ ("preference test operands swapped", VIS, 'code_type is None or self.type_source_preference == TypeSourcePreference.DOCSTRING\n            ):\n                parameters[i]', 'code_type is None or TypeSourcePreference.DOCSTRING == self.type_source_preference\n            ):\n                parameters[i]'),
+ ("none result test via two locals", GEN, '            if result_type["kind"] == "NamedType" and result_type["qname"] == "builtins.None":\n                return ""', '            is_none_result = result_type["kind"] == "NamedType" and result_type["qname"] == "builtins.None"\n            if is_none_result:\n                return ""'),
+ ("is_public local inlined", VIS, None, None),
+ ("docstring style dispatch order", "docstring_parsing/_create_docstring_parser.py", None, None),
+ ("is_internal via index", "stubs_generator/_helper.py", None, None),
+ ("module id setter unchanged else-branch flipped", GEN, '        if self.currently_creating_reexport_data:\n            self.reexport_module_id = module_id\n        else:\n            self.module_id = module_id', '        if not self.currently_creating_reexport_data:\n            self.module_id = module_id\n        else:\n            self.reexport_module_id = module_id'),
+ ("get module id conditions reordered", GEN, '        if get_actual_id or not self.currently_creating_reexport_data:\n            return self.module_id\n        return self.reexport_module_id', '        if self.currently_creating_reexport_data and not get_actual_id:\n            return self.reexport_module_id\n        return self.module_id'),
+ ("imports sorted via sorted()", GEN, None, None),
+ ("enum instance loop as comprehension", GEN, None, None),
+ ("attribute publicity guard positive form", GEN, '            if not attribute.is_public:\n                continue', '            if attribute.is_public is False or not attribute.is_public:\n                continue'),
+ ("griffe node lookup via elif chain to dict", DP, None, None),
+ ("walker callbacks cache check", "api_analyzer/_ast_walker.py", '        methods = self._cache.get(class_name, None)\n        if methods is None:', '        methods = self._cache.get(class_name)\n        if methods is None:'),
+ ("returns section truthiness to None test", DP, '        if not all_returns:\n            return []', '        if all_returns is None or not all_returns:\n            return []'),
+ ("api json indent constant", "api_analyzer/_api.py", 'json.dump(self.to_dict(), f, indent=2)', 'json.dump(self.to_dict(), f, indent=2, ensure_ascii=True)'),
+ ("todo message table as module constant lookup unchanged but .get", GEN, None, None),
+ ("visited nodes as list", "api_analyzer/_ast_walker.py", None, None),
+ ("leave_classdef len test", VIS, None, None),
 ]
 PROPS=[f"C{i:02d}" for i in range(1,21)]
 def run(prop, repo):
